@@ -13,7 +13,7 @@ from vlib.runner import HarnessError, Mismatch, drive
 PROP = "C11"
 LEVEL = "fault_enumeration"
 WORKERS = {"quick": 4, "thorough": 16}
-BUDGET = {"quick": 80, "thorough": 800}
+BUDGET = {"quick": 120, "thorough": 800}
 TECHNIQUE = "Hypothesis-generated lifecycle scenarios; exhaustive enumeration of crash points, torn writes and single I/O faults (5 errnos) at every fs step, sampled double faults; history invariants H1-H5 over fresh-process snapshots"
 LEVEL_TEXT = (
     "For each generated (pre-state, operation) the operation's file-system steps are traced in a forked child under a "
